@@ -8,6 +8,7 @@ package PKGNAME
 import (
 	"encoding/json"
 	"fmt"
+	"math/big"
 	"os"
 	"reflect"
 	"strconv"
@@ -274,3 +275,67 @@ func vWatchMap(m any, loc string)   {}
 func vAccess(kind, loc string)      {}
 func vTraceReset()                  {}
 func vTraceEmit(op string)          {}
+
+// ---- reals (C17 backoff) ---------------------------------------------------
+
+func vParseRat(s string) *big.Rat {
+	s = strings.TrimSpace(s)
+	if strings.HasPrefix(s, "(") && strings.HasSuffix(s, ")") {
+		in := strings.TrimSpace(s[1 : len(s)-1])
+		if strings.HasPrefix(in, "- ") {
+			return new(big.Rat).Neg(vParseRat(in[2:]))
+		}
+		if strings.HasPrefix(in, "/ ") {
+			rest := strings.TrimSpace(in[2:])
+			depth, cut := 0, -1
+			for i, c := range rest {
+				if c == '(' {
+					depth++
+				} else if c == ')' {
+					depth--
+				} else if c == ' ' && depth == 0 {
+					cut = i
+					break
+				}
+			}
+			if cut > 0 {
+				d := vParseRat(rest[cut+1:])
+				if d.Sign() == 0 {
+					return new(big.Rat)
+				}
+				return new(big.Rat).Quo(vParseRat(rest[:cut]), d)
+			}
+		}
+		return new(big.Rat)
+	}
+	s = strings.TrimSuffix(s, "?")
+	r, ok := new(big.Rat).SetString(s)
+	if !ok {
+		return new(big.Rat)
+	}
+	return r
+}
+
+func vParseReal(s string) float64 {
+	f, _ := vParseRat(s).Float64()
+	return f
+}
+
+func vNondetF64(name string) float64 {
+	vLoadReplay()
+	for i := vRPos; i < len(vRF.Nondets); i++ {
+		if vRF.Nondets[i].Name == name {
+			vRPos = i + 1
+			return vParseReal(vRF.Nondets[i].Value)
+		}
+	}
+	return 0
+}
+func vLinkReal(x, lo, hi int64)    {}
+func vRealOf(x int64) float64      { return float64(x) }
+func vRAdd(a, b float64) float64   { return a + b }
+func vRSub(a, b float64) float64   { return a - b }
+func vRMul(a, b float64) float64   { return a * b }
+func vRLe(a, b float64) bool       { return a <= b }
+func vIsNaN(a float64) bool        { return a != a }
+func vIsInf(a float64) bool        { return a > 1.7976931348623157e308 || a < -1.7976931348623157e308 }
